@@ -16,6 +16,7 @@ DECIDED = [
     "on_new_message tests and unpause() lowers",
     "R-C09-CONTAIN: the coroutine of actor.fn(...) is awaited in place by actor_run (directly or as the operand of asyncio.wait_for): nothing detaches the actor body "
     "from the processing task whose end frees the slot; a synchronous actor runs in an executor that the asyncify wrapper creates and shuts down (waits for) around that one call",
+    "R-C09-PAUSE (scan): the Redis fetch pages until a page is empty (no other bound on the paging loop); R-C09-OWN (topics): C11's registry rules reused - every registered topic is consumed",
 ]
 NOT_DECIDED = ["'makes progress / every job eventually executed' (liveness)", "lost wake-ups inside asyncio primitives"]
 ASSUMPTIONS = ["asyncio.Semaphore counts permits correctly; a done-callback runs exactly once when its task ends (normally, by exception or cancellation)"]
